@@ -8,6 +8,7 @@ pub mod c07;
 pub mod c08;
 pub mod c10;
 pub mod c11;
+pub mod c12;
 pub mod c13;
 pub mod c14;
 pub mod c17;
@@ -29,6 +30,7 @@ pub fn all() -> Vec<Property> {
         Property { id: "C08", run: c08::run, replay: c08::replay },
         Property { id: "C10", run: c10::run, replay: c10::replay },
         Property { id: "C11", run: c11::run, replay: c11::replay },
+        Property { id: "C12", run: c12::run, replay: c12::replay },
         Property { id: "C13", run: c13::run, replay: c13::replay },
         Property { id: "C14", run: c14::run, replay: c14::replay },
         Property { id: "C17", run: c17::run, replay: c17::replay },
